@@ -164,6 +164,11 @@ fn replay_position(c: &mut Collector, o: &mut dyn Oracle, path: &str) -> i32 {
     let text = std::fs::read_to_string(path).expect("read replay file");
     let j = J::parse(&text).expect("parse replay file");
     let r = j.get("replay").cloned().unwrap_or(J::Null);
+    if c.prop == "C10" && r.get("ops").is_some() {
+        if let Some(rc) = itermon::replay(c, &r) {
+            return rc;
+        }
+    }
     if let Some(h) = r.get("input_hex").and_then(|x| x.as_str()) {
         let bytes = fenmon::unhex(h);
         fenmon::judge_bytes(c, &bytes, r.get("origin").and_then(|x| x.as_str()).unwrap_or("replay"));
